@@ -9,6 +9,7 @@ tolerance of their flux surface -- depends on solve_ivp / brentq / the FineConto
 fixed point and is a bounded check on generated grids.
 """
 import types
+from contracts.meshkit import Opts as _Opts  # noqa: E402
 
 import numpy
 import z3
@@ -65,7 +66,7 @@ def run_refine_dispatch(ctx):
     c.psival = 1.0
     c.Rrange, c.Zrange = (1.0, 2.0), (-1.0, 1.0)
     P = E.Point2D(1.5, 0.0)
-    c.user_options = types.SimpleNamespace(refine_width=0.01, refine_atol=1e-8, refine_methods=["integrate+newton", "line"])
+    c.user_options = _Opts(refine_width=0.01, refine_atol=1e-8, refine_methods=["integrate+newton", "line"])
     log = []
     marks = {k: object() for k in ("newton", "line", "integrate")}
 
